@@ -414,8 +414,64 @@ class Origins:
             return {("elem", a) for a in first()}
         if is_transparent(callee) or any(r.match(callee) for r in self.extra_transparent):
             return first()
+        g = getter_summary(self.facts, res)
+        if g is not None and A:
+            # `x.as_str()` where as_str is `&self.expression`: the field itself
+            out = set()
+            for a in first():
+                out.add(_subst_self(g, a))
+            return out
         flatargs = tuple(frozenset(a) for a in A)
         return {("call", callee, flatargs, blk)}
+
+
+def _subst_self(t, a):
+    if t == ("param", 1):
+        return a
+    return ("field", _subst_self(t[1], a), t[2])
+
+
+_GETTER_BUSY = set()
+
+
+def getter_summary(lib, name):
+    """A crate-local method whose whole body is `&self.f.g` (two blocks at most, only transparent calls): the field chain
+    over ("param", 1); None otherwise.  Cached on lib."""
+    if lib is None or not hasattr(lib, "fn"):
+        return None
+    cache = lib.__dict__.setdefault("_getter_cache", {})
+    if name in cache:
+        return cache[name]
+    if name in _GETTER_BUSY or name.startswith("std::") or name.startswith("core::") or "::" not in name:
+        return None
+    cache[name] = None
+    b = lib.fn(name)
+    if b is None or b.j.get("auto_derived") or b.arg_count != 1:
+        return None
+    try:
+        if b is None or len(b.reachable()) > 3 or any(not is_transparent(t["callee"]) for _, t in b.calls()):
+            return None
+        if any(bl["term"]["k"] == "switch" for i, bl in enumerate(b.blocks) if i in b.reachable()):
+            return None
+        _GETTER_BUSY.add(name)
+        try:
+            r = Origins(b, lib).of_local(0)
+        finally:
+            _GETTER_BUSY.discard(name)
+    except Exception:
+        return None
+    if len(r) != 1:
+        return None
+    t = next(iter(r))
+    x = t
+    n = 0
+    while x[0] == "field" and len(x) == 3 and isinstance(x[2], str):
+        x = x[1]
+        n += 1
+    if n == 0 or x != ("param", 1):
+        return None
+    cache[name] = t
+    return t
 
 
 def term_mentions(t, pred):
